@@ -22,13 +22,14 @@ func runEntryPoints(parsed pathT, doc any, cfg runCfg) epOuts {
 }
 
 type epCase struct {
-	c       Case
-	p       Path
-	doc     any
-	cfg     runCfg
-	parsed  pathT
-	verbose epOuts
-	silent  epOuts
+	fpBefore uint64 // fingerprint of document and variables before the ten calls (0: not taken)
+	c        Case
+	p        Path
+	doc      any
+	cfg      runCfg
+	parsed   pathT
+	verbose  epOuts
+	silent   epOuts
 }
 
 // errorFamily: chains of <= maxLen steps over an alphabet that contains one
@@ -99,6 +100,9 @@ func epSweep(r *Run, rule string, paths []Path, docs []docEntry, cfgs []sweepCfg
 				}
 				cfg := cfgOf(c)
 				ec := &epCase{c: c, p: p, doc: doc, cfg: cfg, parsed: parsed}
+				if r.ID == "C05" {
+					ec.fpBefore = fingerprint(doc, map[string]any(cfg.vars))
+				}
 				ec.verbose = runEntryPoints(parsed, doc, cfg)
 				scfg := cfg
 				scfg.silent = true
@@ -138,6 +142,7 @@ func epReplay(c Case) *epCase {
 	doc := mustDoc(c.Doc, c.Num)
 	cfg := cfgOf(c)
 	ec := &epCase{c: c, p: p, doc: doc, cfg: cfg, parsed: parsed}
+	ec.fpBefore = fingerprint(doc, map[string]any(cfg.vars))
 	ec.verbose = runEntryPoints(parsed, doc, cfg)
 	cfg.silent = true
 	ec.silent = runEntryPoints(parsed, doc, cfg)
